@@ -48,6 +48,72 @@ fn out_opt<E>(r: Result<Result<Option<i128>, E>, impl Sized>) -> String {
     match r { Ok(Ok(Some(v))) => format!("(Ok (Some {}))", z(v)), Ok(Ok(None)) => "(Ok None)".into(), _ => "Fail".into() }
 }
 
+// ---------- interior "magic number" lattice ----------
+// Thresholds a plausible fast path would compare against are NOT the ends of i128: they are powers of
+// ten (10^k, in particular sqrt(WAD_SCALE) = 10^9, WAD_SCALE = 10^18, WAD_SCALE^2 = 10^36), powers of two
+// (2^31, 2^32, 2^63, 2^64, ... = "fits in a narrower type"), integer square roots of the type ranges
+// ("the product of two such values fits") and scale-relative ends (MAX / WAD_SCALE, half a unit, ...).
+// An off-by-one in such a threshold (<= for <) manifests only with operand(s) exactly AT the constant,
+// often with ALL operands at it simultaneously (aliased magnitudes).
+const WADC: i128 = 1_000_000_000_000_000_000;
+const KEY2: [u32; 20] = [7, 8, 15, 16, 31, 32, 52, 53, 59, 60, 62, 63, 64, 65, 95, 96, 100, 120, 125, 126];
+fn p10(k: u32) -> i128 { 10i128.pow(k) }
+/// magnitudes (>= 0) of the magic lattice; `full`: +-1 neighbours of every 2^k, otherwise only of KEY2
+fn magic128(full: bool) -> Vec<i128> {
+    let mut v: Vec<i128> = vec![];
+    for k in 0..=38u32 { for d in -1i128..=1 { v.push(p10(k) + d); } }
+    for k in 0..=126u32 {
+        let p = 1i128 << k;
+        v.push(p);
+        if full || KEY2.contains(&k) { v.push(p - 1); v.push(p + 1); }
+    }
+    // integer square roots of the type ranges and of the Wad overflow edge:
+    //   isqrt(i64::MAX), isqrt(u64::MAX), isqrt(i128::MAX), isqrt(u128::MAX), isqrt(i128::MAX * 10^18)
+    for r in [3_037_000_499i128, 4_294_967_295, 13_043_817_825_332_782_212, 18_446_744_073_709_551_615,
+              13_043_817_825_332_782_212_349_571_806] {
+        for d in -1i128..=1 { v.push(r + d); }
+    }
+    // scale-relative: MAX / WAD (from_integer edge), half a unit, two units
+    for r in [i128::MAX / WADC, WADC / 2, 2 * WADC, i128::MAX / 1_000_000_000] { for d in -1i128..=1 { v.push(r + d); } }
+    v.retain(|x| *x >= 0);
+    v.sort(); v.dedup(); v
+}
+/// the reduced lattice used for the three-operand entry points in the quick tier
+fn magic128_triples(full: bool) -> Vec<i128> {
+    if full { return magic128(true); }
+    let mut v: Vec<i128> = vec![];
+    for k in 0..=38u32 { v.push(p10(k)); if [9u32, 18, 19, 36].contains(&k) { v.push(p10(k) - 1); v.push(p10(k) + 1); } }
+    for k in 0..=126u32 { let p = 1i128 << k; v.push(p); if KEY2.contains(&k) { v.push(p - 1); v.push(p + 1); } }
+    for r in [3_037_000_499i128, 13_043_817_825_332_782_212, 18_446_744_073_709_551_615] { for d in -1i128..=1 { v.push(r + d); } }
+    v.sort(); v.dedup(); v
+}
+
+// 256-bit magnitudes as (hi: u128, lo: u128)
+fn u256_pow2(k: u32) -> (u128, u128) { if k < 128 { (0, 1u128 << k) } else { (1u128 << (k - 128), 0) } }
+fn u256_pow10(k: u32) -> (u128, u128) {
+    let (mut hi, mut lo) = (0u128, 1u128);
+    let mask = (1u128 << 64) - 1;
+    for _ in 0..k {
+        let p0 = (lo & mask) * 10;
+        let p1 = (lo >> 64) * 10 + (p0 >> 64);
+        lo = (p1 << 64) | (p0 & mask);
+        hi = hi * 10 + (p1 >> 64);
+    }
+    (hi, lo)
+}
+fn u256_add(m: (u128, u128), d: i8) -> (u128, u128) {
+    match d {
+        1 => { let (lo, c) = m.1.overflowing_add(1); (m.0 + c as u128, lo) }
+        -1 => { let (lo, b) = m.1.overflowing_sub(1); (m.0 - b as u128, lo) }
+        _ => m,
+    }
+}
+/// signed 256-bit value from sign and magnitude (magnitude <= 2^255)
+fn w_of(neg: bool, m: (u128, u128)) -> W {
+    if !neg { W(m.0 as i128, m.1) }
+    else { let lo = (!m.1).wrapping_add(1); let hi = (!m.0).wrapping_add(if m.1 == 0 { 1 } else { 0 }); W(hi as i128, lo) }
+}
+
 fn main() {
     let mut out = Out::new("From SC Require Import Lib.Prelude Lib.Int Model.Math Run.C12.\nOpen Scope Z_scope.", "check_all");
     let e = Env::default();
@@ -218,8 +284,217 @@ fn main() {
         }
         flush(&mut out, &mut trace, "wad-pow-directed", &mut tidx);
     }
+    // 6. interior magic numbers of plausible fast paths (deterministic; no use of the random stream).
+    //    For EVERY operation: operands exactly at 10^k / 2^k / isqrt(range) / scale-relative constants (each +-1),
+    //    (A) aliased (all operands the same magnitude, all sign patterns), (B) pairwise over the powers of ten,
+    //    (C) one magic operand against a generic one, in every position, (D) pairs whose exact RESULT sits on a
+    //    threshold (0 | 1 raw unit, 1.0, the i128 edge), (E) 2^i * 2^j on the product-fits edge.
+    {
+        let mfull = magic128(true);                         // ~520 magnitudes
+        let mtri = magic128_triples(thorough);              // reduced for the 3-operand entry points
+        let sgn = |v: i128, neg: bool| -> i128 { if neg { -v } else { v } };
+        let wad3 = |out: &mut Out, trace: &mut Vec<String>, a: i128, b_: i128, fam: &str, ops: u8,
+                    emit: &mut dyn FnMut(&mut Out, &mut Vec<String>, String, String, &str)| {
+            if ops & 1 != 0 { emit(out, trace, format!("WadCMul {} {}", z(a), z(b_)), out_opt(c.try_wmul(&a, &b_)), &format!("wad_mul-{}", fam)); }
+            if ops & 2 != 0 { emit(out, trace, format!("WadCDiv {} {}", z(a), z(b_)), out_opt(c.try_wdiv(&a, &b_)), &format!("wad_div-{}", fam)); }
+            if ops & 4 != 0 { emit(out, trace, format!("WadFromRatio {} {}", z(a), z(b_)), out_i128(c.try_wratio(&a, &b_)), &format!("wad_from_ratio-{}", fam)); }
+        };
+        let do128m = |out: &mut Out, trace: &mut Vec<String>, x: i128, y: i128, d: i128, fam: &str,
+                      emit: &mut dyn FnMut(&mut Out, &mut Vec<String>, String, String, &str)| {
+            for k in 0..3u32 {
+                emit(out, trace, format!("MulDiv128 {} {} {} {}", rdname(k), z(x), z(y), z(d)), out_i128(c.try_md(&k, &x, &y, &d)), &format!("md128-{}", fam));
+                emit(out, trace, format!("CMulDiv128 {} {} {} {}", rdname(k), z(x), z(y), z(d)), out_opt(c.try_cmd(&k, &x, &y, &d)), &format!("cmd128-{}", fam));
+            }
+        };
+
+        // (A) Wad, aliased magnitudes over the FULL lattice: a = +-v, b = +-v  (the 'dust * dust' shape:
+        //     a conjunction of two comparisons against the same constant is wrong only when both sit on it)
+        //     multiply: every v of the full lattice, all four sign patterns; divide / from_ratio (whose aliased result is
+        //     always +-1.0) and from_integer: the reduced lattice plus the scale-relative constants in quick, all in thorough
+        let rich = |v: i128| -> bool {
+            thorough || v == 0 || mtri.binary_search(&v).is_ok()
+                || [i128::MAX / WADC, WADC / 2, 2 * WADC, i128::MAX / 1_000_000_000].iter().any(|r| (v - r).abs() <= 1)
+        };
+        for (i, &v) in mfull.iter().enumerate() {
+            let ops = if rich(v) { 7 } else { 1 };
+            wad3(&mut out, &mut trace, v, v, "magic-aliased", ops, &mut emit);
+            wad3(&mut out, &mut trace, v, -v, "magic-aliased", ops, &mut emit);
+            wad3(&mut out, &mut trace, -v, -v, "magic-aliased", 1, &mut emit);
+            wad3(&mut out, &mut trace, -v, v, "magic-aliased", if thorough { 7 } else { 1 }, &mut emit);
+            if rich(v) { for n in [v, -v] { emit(&mut out, &mut trace, format!("WadFromInteger {}", z(n)), out_i128(c.try_wint(&n)), "wad_from_integer-magic"); } }
+            if i % 30 == 29 { flush(&mut out, &mut trace, "wad-magic-aliased", &mut tidx); }
+        }
+        flush(&mut out, &mut trace, "wad-magic-aliased", &mut tidx);
+
+        // (B) Wad, all ordered pairs of powers of ten (10^i, 10^j), sign pattern rotating with the pair;
+        //     next to the diagonal also the mixed +-1 neighbours
+        for i in 0..=38u32 {
+            for j in 0..=38u32 {
+                let s = (i + 2 * j) % 4;
+                wad3(&mut out, &mut trace, sgn(p10(i), s & 1 != 0), sgn(p10(j), s & 2 != 0), "magic-pair", 7, &mut emit);
+            }
+            let v = p10(i);
+            for (da, db) in [(0i128, -1i128), (0, 1), (-1, 0), (1, 0), (-1, 1), (1, -1)] {
+                wad3(&mut out, &mut trace, sgn(v + da, i % 2 == 1), v + db, "magic-pair", 7, &mut emit);
+            }
+            if i % 3 == 2 { flush(&mut out, &mut trace, "wad-magic-pow10-pairs", &mut tidx); }
+        }
+        flush(&mut out, &mut trace, "wad-magic-pow10-pairs", &mut tidx);
+
+        // (C) Wad, one magic operand against a generic non-trivial one (1.5 units + 7 raw), both positions
+        let g1 = 3 * WADC / 2 + 7;
+        for (i, &v) in mtri.iter().enumerate() {
+            let vs = sgn(v, i % 3 == 1);
+            wad3(&mut out, &mut trace, vs, g1, "magic-single", 7, &mut emit);
+            wad3(&mut out, &mut trace, if i % 2 == 0 { g1 } else { -g1 }, vs, "magic-single", 7, &mut emit);
+            if i % 60 == 59 { flush(&mut out, &mut trace, "wad-magic-single", &mut tidx); }
+        }
+        flush(&mut out, &mut trace, "wad-magic-single", &mut tidx);
+
+        // (D) Wad, exact result on a threshold.
+        //     mul: a*b around 10^18 (result 0 | +-1 raw unit) and around 10^36 (result around 1.0);
+        //          10^i * b with the result at the i128 edge
+        //     div / from_ratio: a*10^18 around b (result 0 | +-1); a / 10^j with the result at the i128 edge
+        for tot in [18u32, 36] {
+            for i in 0..=tot {
+                if tot - i > 38 || i > 38 { continue; }
+                for da in -1i128..=1 { for db in -1i128..=1 {
+                    let neg = (i as i128 + da + 2 * db).rem_euclid(4);
+                    wad3(&mut out, &mut trace, sgn(p10(i) + da, neg & 1 != 0), sgn(p10(tot - i) + db, neg & 2 != 0), "magic-result", 1, &mut emit);
+                } }
+            }
+        }
+        for i in 18..=38u32 {
+            let edge = i128::MAX / p10(i - 18);
+            for db in 0i128..=1 {
+                if let Some(b_) = edge.checked_add(db) {
+                    wad3(&mut out, &mut trace, p10(i), b_, "magic-result", 1, &mut emit);
+                    wad3(&mut out, &mut trace, -b_, p10(i), "magic-result", 1, &mut emit);
+                    wad3(&mut out, &mut trace, -b_, -p10(i), "magic-result", 1, &mut emit);
+                }
+            }
+        }
+        flush(&mut out, &mut trace, "wad-magic-result-mul", &mut tidx);
+        for i in 0..=20u32 {
+            for da in -1i128..=1 { for db in -1i128..=1 {
+                let neg = (i as i128 + da + 2 * db).rem_euclid(4);
+                wad3(&mut out, &mut trace, sgn(p10(i) + da, neg & 1 != 0), sgn(p10(i + 18) + db, neg & 2 != 0), "magic-result", 6, &mut emit);
+            } }
+        }
+        for j in 0..=18u32 {
+            let edge = i128::MAX / p10(18 - j);
+            for da in 0i128..=1 {
+                if let Some(a) = edge.checked_add(da) {
+                    wad3(&mut out, &mut trace, a, p10(j), "magic-result", 6, &mut emit);
+                    wad3(&mut out, &mut trace, -a, p10(j), "magic-result", 6, &mut emit);
+                    wad3(&mut out, &mut trace, -a - 1, -p10(j), "magic-result", 6, &mut emit);
+                }
+            }
+        }
+        flush(&mut out, &mut trace, "wad-magic-result-div", &mut tidx);
+
+        // pow: magic bases with exponents 2 and 3 (base*base is the aliased product), magic exponents 2^k (+-1)
+        for k in 0..=38u32 {
+            for dv in -1i128..=1 {
+                let x = sgn(p10(k) + dv, k % 2 == 1 && dv == 0);
+                for p in [2u32, 3] {
+                    emit(&mut out, &mut trace, format!("WadCPow {} {}", z(x), p), out_opt(c.try_wcpow(&x, &p)), "wad_checked_pow-magic");
+                    emit(&mut out, &mut trace, format!("WadPow {} {}", z(x), p), out_i128(c.try_wpow(&x, &p)), "wad_pow-magic");
+                }
+            }
+        }
+        for k in 0..=31u32 {
+            for dp in -1i64..=1 {
+                let p = ((1i64 << k) + dp) as u32;
+                let x = if k % 2 == 0 { WADC + 1_000_000_000 } else { WADC - 1_000_000_000 };
+                emit(&mut out, &mut trace, format!("WadCPow {} {}", z(x), p), out_opt(c.try_wcpow(&x, &p)), "wad_checked_pow-magic");
+                emit(&mut out, &mut trace, format!("WadPow {} {}", z(x), p), out_i128(c.try_wpow(&x, &p)), "wad_pow-magic");
+            }
+        }
+        flush(&mut out, &mut trace, "wad-magic-pow", &mut tidx);
+
+        // i128 mul_div, all six variants.
+        // (A) x = +-v, y = +-v with a generic divisor; all three operands aliased; (C) generic product over a magic divisor
+        let (ga, gb) = (0x1234_5678_9abc_def0_1234i128, 1_000_003i128);      // product fits in i128
+        let (ha, hb) = ((1i128 << 100) + 12345, (1i128 << 40) + 7);          // product needs the widening path
+        for (i, &v) in mtri.iter().enumerate() {
+            let d7 = if i % 2 == 0 { 7 } else { -7 };
+            do128m(&mut out, &mut trace, sgn(v, i % 4 >= 2), v, d7, "magic-aliased", &mut emit);
+            do128m(&mut out, &mut trace, v, -v, sgn(v, i % 2 == 1), "magic-aliased", &mut emit);
+            if i % 2 == 0 { do128m(&mut out, &mut trace, ga, sgn(gb, i % 4 == 2), sgn(v, i % 3 == 1), "magic-single", &mut emit); }
+            else { do128m(&mut out, &mut trace, sgn(ha, i % 4 == 3), hb, sgn(v, i % 3 == 1), "magic-single", &mut emit); }
+            if i % 40 == 39 { flush(&mut out, &mut trace, "md128-magic", &mut tidx); }
+        }
+        flush(&mut out, &mut trace, "md128-magic", &mut tidx);
+        // (E) bit-length fast paths: 2^i * 2^(127-i) = 2^127 is one past MAX (widened), -2^i * 2^(127-i) = MIN fits natively
+        for i in 1..=126u32 {
+            let (x, y) = (1i128 << i, 1i128 << (127 - i));
+            let d = [-1i128, 1, 3, -3, 1 << (i.min(100)), -2][(i % 6) as usize];
+            do128m(&mut out, &mut trace, x, y, d, "magic-bits", &mut emit);
+            do128m(&mut out, &mut trace, -x, y, d, "magic-bits", &mut emit);
+            if thorough { do128m(&mut out, &mut trace, x - 1, y, d, "magic-bits", &mut emit); do128m(&mut out, &mut trace, -x, -y, -d, "magic-bits", &mut emit); }
+            if i % 42 == 41 { flush(&mut out, &mut trace, "md128-magic-bits", &mut tidx); }
+        }
+        flush(&mut out, &mut trace, "md128-magic-bits", &mut tidx);
+
+        // (F) corners of a NARROWER type seen from the wide domain ("all operands fit in iN -> take the iN path"):
+        //     T = 2^31, 2^32, 2^64 for the i128 entry points: MIN_N / -1, MIN_N * -1, MAX_N, MAX_N + 1 as x, y, d
+        for t in [1i128 << 31, 1 << 32, 1 << 64] {
+            for x in [-t, t - 1, t] { for y in [1i128, -1, -t] { for d in [1i128, -1, -t] {
+                do128m(&mut out, &mut trace, x, y, d, "magic-narrow", &mut emit);
+            } } }
+        }
+        flush(&mut out, &mut trace, "md128-magic-narrow", &mut tidx);
+        {
+            let one = (0u128, 1u128);
+            for k in [31u32, 63, 127] {
+                let t = u256_pow2(k);
+                let xs = [w_of(true, t), w_of(false, u256_add(t, -1)), w_of(false, t)];
+                let ys = [w_of(false, one), w_of(true, one), w_of(true, t)];
+                for x in xs.iter() { for y in ys.iter() { for d in ys.iter() {
+                    for r_ in 0..3u32 {
+                        let r = c.try_md256(&r_, &x.to(&e), &y.to(&e), &d.to(&e));
+                        let s_ = match r { Ok(Ok(v)) => format!("(Ok (Some {}))", W::of(&v).coq()), _ => "Fail".into() };
+                        emit(&mut out, &mut trace, format!("MulDiv256 {} {} {} {}", rdname(r_), x.coq(), y.coq(), d.coq()), s_, "md256-magic-narrow");
+                        let r = c.try_cmd256(&r_, &x.to(&e), &y.to(&e), &d.to(&e));
+                        let s_ = match r { Ok(Ok(Some(v))) => format!("(Ok (Some {}))", W::of(&v).coq()), Ok(Ok(None)) => "(Ok None)".into(), _ => "Fail".into() };
+                        emit(&mut out, &mut trace, format!("CMulDiv256 {} {} {} {}", rdname(r_), x.coq(), y.coq(), d.coq()), s_, "cmd256-magic-narrow");
+                    }
+                } } }
+            }
+            flush(&mut out, &mut trace, "i256-magic-narrow", &mut tidx);
+        }
+
+        // I256 mul_div: magic values of the 256-bit domain, in particular the i128 / i64 ends seen from I256
+        // ("both operands fit in i128 -> take the narrow path"), aliased and against a generic operand
+        {
+            let mut mags: Vec<(u128, u128)> = vec![];
+            for k in [31u32, 32, 63, 64, 126, 127, 128, 129, 191, 192, 253, 254] {
+                for d in -1i8..=1 { mags.push(u256_add(u256_pow2(k), d)); }
+            }
+            for k in [9u32, 18, 36, 38, 39, 72, 76] { for d in -1i8..=1 { mags.push(u256_add(u256_pow10(k), d)); } }
+            let three = W(0, 3); let g = W(0, 1_000_003);
+            for (i, m) in mags.iter().enumerate() {
+                let (p, q) = (w_of(false, *m), w_of(true, *m));
+                let triples: [(W, W, W); 4] = [(p, p, if i % 2 == 0 { three } else { w_of(true, (0, 3)) }), (p, q, p), (q, g, three), (g, three, q)];
+                for (x, y, d) in triples.iter() {
+                    for k in 0..3u32 {
+                        let r = c.try_md256(&k, &x.to(&e), &y.to(&e), &d.to(&e));
+                        let s_ = match r { Ok(Ok(v)) => format!("(Ok (Some {}))", W::of(&v).coq()), _ => "Fail".into() };
+                        emit(&mut out, &mut trace, format!("MulDiv256 {} {} {} {}", rdname(k), x.coq(), y.coq(), d.coq()), s_, "md256-magic");
+                        let r = c.try_cmd256(&k, &x.to(&e), &y.to(&e), &d.to(&e));
+                        let s_ = match r { Ok(Ok(Some(v))) => format!("(Ok (Some {}))", W::of(&v).coq()), Ok(Ok(None)) => "(Ok None)".into(), _ => "Fail".into() };
+                        emit(&mut out, &mut trace, format!("CMulDiv256 {} {} {} {}", rdname(k), x.coq(), y.coq(), d.coq()), s_, "cmd256-magic");
+                    }
+                }
+                if i % 12 == 11 { flush(&mut out, &mut trace, "i256-magic", &mut tidx); }
+            }
+            flush(&mut out, &mut trace, "i256-magic", &mut tidx);
+        }
+    }
+
     // 5. Wad
-    let nw = if thorough { 10000 } else { 500 } * out.cfg.scale;
+    let nw =if thorough { 10000 } else { 500 } * out.cfg.scale;
     let wad = 1_000_000_000_000_000_000i128;
     for i in 0..nw {
         let pk = |rng: &mut Rng| -> i128 { match rng.below(4) { 0 => *rng.pick(&lat), 1 => rng.i128_any(), 2 => wad.saturating_mul(rng.range(-1000, 1000) as i128) + rng.range(-3, 3) as i128, _ => rng.u_bits(100) } };
